@@ -119,6 +119,8 @@ def obligations(tier):
             ns = [0, 1, 8, 17, 20, 32] if q else list(range(0, 41)) + [64, 96]
         elif dec == "readelementstatus":
             ns = [0, 4, 8, 12, 16, 18, 20, 24, 25] if q else list(range(0, 29))
+        elif dec == "prin-readfullstatus":
+            ns = [0, 1, 4, 8, 12, 16, 20, 24, 33, 40, 56] if q else list(range(0, 41)) + [48, 56, 64]
         else:
             ns = [0, 1, 4, 8, 12, 16, 20, 24] if q else list(range(0, 33))
         plan.append((dec, None, ns))
